@@ -9,29 +9,158 @@ Driver for C10 (part A, the undo-frame API of `Facts`).
 -/
 open Proto C10
 
-def keysObserved : List Nat := [0, 1, 2]
+/-- observed keys: k0..k2, and every further key the case mentions (k3, k4 … for the wide families) -/
+def keysUpTo (n : Nat) : List Nat := List.range (max 3 n)
 
-def insertSorted (e : Nat × Int) : List (Nat × Int) → List (Nat × Int)
+def insertSorted {α : Type} (e : Nat × α) : List (Nat × α) → List (Nat × α)
   | [] => [e]
   | x :: xs => if e.1 ≤ x.1 then e :: x :: xs else x :: insertSorted e xs
 
-def parseVal (s : String) : Option Val :=
-  if s.startsWith "i" then (s.drop 1).toString.toInt?.map .int
-  else if s.startsWith "o" then
-    let r := (s.drop 1).toString
-    if r.isEmpty then some (.obj [])
-    else do
-      let fs ← (r.splitOn "+").mapM fun fv =>
-        match fv.splitOn ":" with
-        | [f, v] => do pure ((← f.toNat?), (← v.toInt?))
-        | _ => none
-      pure (.obj (fs.foldr insertSorted []))
+/-! value text (same grammar as harness/src/bin/c10.rs):
+  val    := `z` null | `b0`/`b1` | `i<int>` | `n<hex bits>` float | `s<hex>` string | `e<hex>` expression
+          | `a` [scalar (`+` scalar)*]   array of scalars
+          | `o` [<f>`:`member (`+` <f>`:`member)*]
+  member := <int> (legacy, = i<int>) | scalar | `(` val `)` for arrays and objects -/
+
+inductive PV where
+  | leaf (l : VLeaf)
+  | obj (fs : List (Nat × PV))
+
+def stopChar (c : Char) : Bool := c == '+' || c == ')' || c == '('
+
+def hexText? (s : String) : Option String :=
+  if s.isEmpty then some "" else hexString? s
+
+def parseScalarTok (t : String) : Option VScalar :=
+  if t = "z" then some .null
+  else if t = "b0" then some (.bool false)
+  else if t = "b1" then some (.bool true)
+  else if t.startsWith "i" then (t.drop 1).toString.toInt?.map .int
+  else if t.startsWith "n" then
+    let h := (t.drop 1).toString
+    if h.isEmpty then none
+    else h.toList.foldlM (fun (acc : Nat) (c : Char) =>
+      if c.isDigit then some (acc * 16 + (c.toNat - '0'.toNat))
+      else if 'a' ≤ c && c ≤ 'f' then some (acc * 16 + (c.toNat - 'a'.toNat + 10)) else none) 0 |>.map .num
+  else if t.startsWith "s" then (hexText? (t.drop 1).toString).map .str
+  else if t.startsWith "e" then (hexText? (t.drop 1).toString).map .expr
   else none
 
-def showVal : Val → String
+partial def parsePV (cs : List Char) : Option (PV × List Char) :=
+  match cs with
+  | 'o' :: r =>
+    let rec fields (r : List Char) (acc : List (Nat × PV)) : Option (PV × List Char) :=
+      match r with
+      | [] => some (.obj acc.reverse, [])
+      | ')' :: _ => some (.obj acc.reverse, r)
+      | _ =>
+        let r := match r with | '+' :: r' => r' | _ => r
+        let (ft, r1) := r.span (· != ':')
+        match (String.ofList ft).toNat?, r1 with
+        | some f, ':' :: r2 =>
+          match r2 with
+          | '(' :: r3 =>
+            match parsePV r3 with
+            | some (v, ')' :: r4) => fields r4 ((f, v) :: acc)
+            | _ => none
+          | _ =>
+            let (tok, r3) := r2.span (fun c => !stopChar c)
+            let t := String.ofList tok
+            match t.toInt? with
+            | some n => fields r3 ((f, .leaf (.int n)) :: acc)
+            | none =>
+              match parseScalarTok t with
+              | some sc => fields r3 ((f, .leaf (.sc sc)) :: acc)
+              | none => none
+        | _, _ => none
+    fields r []
+  | 'a' :: r =>
+    let rec items (r : List Char) (acc : List VScalar) : Option (PV × List Char) :=
+      match r with
+      | [] => some (.leaf (.arr acc.reverse), [])
+      | ')' :: _ => some (.leaf (.arr acc.reverse), r)
+      | _ =>
+        let r := match r with | '+' :: r' => r' | _ => r
+        let (tok, r1) := r.span (fun c => !stopChar c)
+        match parseScalarTok (String.ofList tok) with
+        | some sc => items r1 (sc :: acc)
+        | none => none
+    items r []
+  | _ =>
+    let (tok, r) := cs.span (fun c => !stopChar c)
+    (parseScalarTok (String.ofList tok)).map fun sc => (.leaf (.sc sc), r)
+
+def pvLeaf : PV → Option VLeaf
+  | .leaf l => some l
+  | .obj _ => none
+
+def sortFields {α : Type} (fs : List (Nat × α)) : List (Nat × α) := fs.foldr insertSorted []
+
+def pvVal1 : PV → Option Val1
+  | .leaf l => some (.leaf l)
+  | .obj fs => do
+    let fs ← fs.mapM fun (f, v) => do pure (f, ← pvLeaf v)
+    pure (.obj (sortFields fs))
+
+def pvVal : PV → Option Val
+  | .leaf l => some (.leaf l)
+  | .obj fs => do
+    let fs ← fs.mapM fun (f, v) => do pure (f, ← pvVal1 v)
+    pure (.obj (sortFields fs))
+
+def parseVal (s : String) : Option Val :=
+  match parsePV s.toList with
+  | some (v, []) => pvVal v
+  | _ => none
+
+/-- the value written by `set_nested`: a bare integer (legacy) or a non-object value -/
+def parseLeaf (s : String) : Option VLeaf :=
+  match s.toInt? with
+  | some n => some (.int n)
+  | none =>
+    match parsePV s.toList with
+    | some (v, []) => pvLeaf v
+    | _ => none
+
+def hexDigitsOf (n : Nat) : String :=
+  let rec go (fuel n : Nat) (acc : List Char) : List Char :=
+    match fuel with
+    | 0 => acc
+    | fuel + 1 =>
+      let d := n % 16
+      let c := if d < 10 then Char.ofNat ('0'.toNat + d) else Char.ofNat ('a'.toNat + d - 10)
+      if n / 16 = 0 then c :: acc else go fuel (n / 16) (c :: acc)
+  String.ofList (go 64 n [])
+
+def showScalar : VScalar → String
+  | .null => "z"
+  | .bool b => if b then "b1" else "b0"
   | .int n => s!"i{n}"
-  | .obj fs =>
-    "o" ++ "+".intercalate (fs.map fun (f, v) => s!"{f}:{v}")
+  | .num b => "n" ++ hexDigitsOf b
+  | .str s => "s" ++ (if s.isEmpty then "" else hexOfString s)
+  | .expr s => "e" ++ (if s.isEmpty then "" else hexOfString s)
+
+def showLeaf : VLeaf → String
+  | .sc s => showScalar s
+  | .arr xs => "a" ++ "+".intercalate (xs.map showScalar)
+
+/-- a member of an object: integers bare (legacy), other scalars tagged, arrays / objects in parentheses -/
+def showMemberLeaf : VLeaf → String
+  | .sc (.int n) => s!"{n}"
+  | .sc s => showScalar s
+  | l => "(" ++ showLeaf l ++ ")"
+
+def showVal1 : Val1 → String
+  | .leaf l => showLeaf l
+  | .obj fs => "o" ++ "+".intercalate (fs.map fun (f, v) => s!"{f}:{showMemberLeaf v}")
+
+def showMember1 : Val1 → String
+  | .leaf l => showMemberLeaf l
+  | v => "(" ++ showVal1 v ++ ")"
+
+def showVal : Val → String
+  | .leaf l => showLeaf l
+  | .obj fs => "o" ++ "+".intercalate (fs.map fun (f, v) => s!"{f}:{showMember1 v}")
 
 def showCell (c : Cell) : String :=
   (match c.val with | some v => showVal v | none => "~") ++ (if c.ty then "t" else "n")
@@ -66,7 +195,7 @@ def parseOp (s : String) : Option Op :=
     match (s.drop 1).toString.splitOn "=" with
     | [p, v] => do
       match ← (p.splitOn ".").mapM (·.toNat?) with
-      | k :: path => pure (.setNested k path (← v.toInt?))
+      | k :: path => pure (.setNested k path (← parseLeaf v))
       | [] => none
     | _ => none
   else if s.startsWith "D" then (s.drop 1).toString.toNat?.map .remove
@@ -75,9 +204,21 @@ def parseOp (s : String) : Option Op :=
 def parseOps (s : String) : Option (List Op) :=
   if s = "-" then some [] else (s.splitOn ",").mapM parseOp
 
-def parseCase (line : String) : Option ((Nat → Cell) × List Op) :=
+def maxKey : List Op → Nat
+  | [] => 0
+  | op :: l => max (match opKey op with | some k => k + 1 | none => 0) (maxKey l)
+
+/-- number of observed keys of a case: 3, or more when the initial store or an operation names k3, k4 … -/
+def caseKeys (initText : String) (ops : List Op) : List Nat :=
+  let ik := if initText = "-" then 0 else
+    (initText.splitOn ",").foldl (fun m kv => match (kv.splitOn "=").head?.bind (·.toNat?) with | some k => max m (k + 1) | none => m) 0
+  keysUpTo (max ik (maxKey ops))
+
+def parseCase (line : String) : Option ((Nat → Cell) × List Op × List Nat) :=
   match tokens line with
-  | [i, o] => do pure ((← parseInit i), (← parseOps o))
+  | [i, o] => do
+    let ops ← parseOps o
+    pure ((← parseInit i), ops, caseKeys i ops)
   | _ => none
 
 def showRes : Res → String
@@ -95,7 +236,7 @@ def parseRes (s : String) : Option Res :=
 def showObs (o : Obs) : String :=
   s!"{showRes o.res}/{o.depth}/" ++ ",".intercalate (o.cells.map fun e => showCell e.2)
 
-def parseObs (s : String) : Option Obs :=
+def parseObs (keysObserved : List Nat) (s : String) : Option Obs :=
   match s.splitOn "/" with
   | [r, d, cs] => do
     let cells ← (cs.splitOn ",").mapM parseCell
@@ -103,22 +244,42 @@ def parseObs (s : String) : Option Obs :=
     else pure { res := ← parseRes r, depth := ← d.toNat?, cells := keysObserved.zip cells }
   | _ => none
 
-def parseTrace (s : String) : Option (List Obs) :=
-  if s = "-" then some [] else (s.splitOn ";").mapM parseObs
+def parseTrace (keysObserved : List Nat) (s : String) : Option (List Obs) :=
+  if s = "-" then some [] else (s.splitOn ";").mapM (parseObs keysObserved)
 
 def modelLine (line : String) : String :=
   match parseCase line with
-  | some (d, ops) =>
+  | some (d, ops, keysObserved) =>
     let os := trace keysObserved ⟨d, []⟩ ops
     if os.isEmpty then "-" else ";".intercalate (os.map showObs)
   | none => "bad-case"
+
+/-- values an implementation may confuse with "absent" -/
+def falsyVal : Val → Bool
+  | .leaf (.sc .null) => true
+  | .leaf (.sc (.bool false)) => true
+  | .leaf (.sc (.int 0)) => true
+  | .leaf (.sc (.num 0)) => true
+  | .leaf (.sc (.str "")) => true
+  | .leaf (.arr []) => true
+  | .obj [] => true
+  | .obj [(_, .leaf (.sc .null))] => true
+  | _ => false
+
+/-- tags of a restoring rollback: which kind of value came back -/
+def restoredTags (before after : Snap) : List String :=
+  (before.zip after).foldl (fun acc (b, a) =>
+    if b.2 == a.2 then acc else
+      match a.2.val with
+      | none => "rb_to_absent" :: acc
+      | some v => (if v == Val.null then ["rb_to_null"] else []) ++ (if falsyVal v then ["rb_to_falsy"] else []) ++ acc) []
 
 def tagsOf (ops : List Op) (init : Snap) (os : List Obs) : List String :=
   let rec go (depth : Nat) (prev : Snap) : List Op → List Obs → List String
     | op :: ops, o :: os =>
       let t :=
         (match op with
-         | .rollback => (if depth > 0 && o.cells != prev then ["rb_restoring", "nontrivial"] else [])
+         | .rollback => (if depth > 0 && o.cells != prev then ["rb_restoring", "nontrivial"] ++ restoredTags prev o.cells else [])
                         ++ (if depth == 0 then ["noop_close"] else []) ++ (if depth ≥ 2 then ["rb_nested"] else [])
          | .commit => (if depth ≥ 2 then ["commit_nested"] else []) ++ (if depth == 0 then ["noop_close"] else [])
          | .setNested _ _ _ => (match o.res with | .err .fieldNotFound => ["nested_fnf"] | .err .typeMismatch => ["nested_tm"] | _ => ["nested_ok"])
@@ -130,8 +291,12 @@ def tagsOf (ops : List Op) (init : Snap) (os : List Obs) : List String :=
 def oracleLine (line : String) : String :=
   match line.splitOn " | " with
   | [c, o] =>
-    match parseCase c, parseTrace o.trimAscii.toString with
-    | some (d, ops), some os =>
+    match parseCase c with
+    | none => "bad-input"
+    | some (d, ops, keysObserved) =>
+    match parseTrace keysObserved o.trimAscii.toString with
+    | none => "bad-input"
+    | some os =>
       let init := proj keysObserved d
       if checkFrom [] init ops os then
         let lenTag := s!"len{ops.length}"
@@ -140,7 +305,6 @@ def oracleLine (line : String) : String :=
         match firstBad 0 [] init ops os with
         | some i => s!"fail stepOk@{i}"
         | none => "fail checkFrom"
-    | _, _ => "bad-input"
   | _ => "bad-input"
 
 def main (args : List String) : IO Unit :=
